@@ -79,6 +79,13 @@ REQUIRED_COUNTERS = (['w:' + w for w in WRAPPERS] + ['leaf:' + l for l in LEAVES
                         'unused_votes_prev_gains_later_stage_awards', 'unused_votes_depth2_later_stage_awards',
                         # generator audit (GENERATOR_CHECKLIST.md): candidate objects, clashes, numbers, seat values
                         'names:int0', 'names:empty0', 'names:person', 'name_clash', 'exact_arithmetic_in_wrapper',
+                        # results nested by two / three constituency levels (depth 3 / 4)
+                        'deep:levels2', 'deep:levels3', 'deep:bycon', 'deep:multi', 'deep:unused', 'deep:cond',
+                        'deep:preapp', 'deep:fixed', 'deep:prev_gains', 'multi_depth3', 'multi_depth4',
+                        'unused_depth3', 'cond_depth3', 'sem:bycon:over_bycon_value',
+                        'sem:multi:depth3_2plus_stages_award', 'sem:multi:depth3_prev_gains_value',
+                        'sem:multi:depth4_value', 'sem:unused:depth3_value', 'sem:unused:depth3_later_stage_awards',
+                        'sem:cond:eliminates_some_depth3',
                         'seat_table_shared:repeated_call', 'seat_table_shared:later_stage',
                         'seat_table_shared:repeated_call_and_later_stage',
                         'num:fraction_votes', 'num:fraction_votes_big_denominator', 'num:votes_1e18_or_more',
@@ -538,7 +545,7 @@ class Hand:
         tot = _totals(votes, depth)
         kept = [c for c in tot if c in passed]
         if 0 < len(kept) < len(tot):
-            self.note('sem:cond:eliminates_some_depth%d' % min(depth, 2))
+            self.note('sem:cond:eliminates_some_depth%d' % min(depth, 3))
         elif not kept:
             self.note('sem:cond:eliminates_all')
         if _flat_total(prev, depth) and b.kids['elim'].kind == 'prev_gain_thr':
@@ -594,6 +601,8 @@ class Hand:
         kinds = [type(r) for r in out.values()]
         if len(kinds) >= 2:
             self.note('sem:bycon:2plus_evaluated')
+        if kinds and _stage_leaf_kind(b.kids['e']) == 'bycon':
+            self.note('sem:bycon:over_bycon_value')
         if empty and kinds:
             self.note('sem:bycon:zero_seat_next_to_evaluated')
         if not kinds:
@@ -654,6 +663,12 @@ class Hand:
             self.note('sem:multi:a_stage_awards_nothing')
         if depth >= 2 and any(x > 0 for x in awarded):
             self.note('sem:multi:depth2_value')
+        if depth >= 3 and sum(1 for x in awarded if x > 0) >= 2:
+            self.note('sem:multi:depth3_2plus_stages_award')
+        if depth >= 4 and any(x > 0 for x in awarded):
+            self.note('sem:multi:depth4_value')
+        if depth >= 3 and _flat_total(kw.get('prev', {}), depth) and any(x > 0 for x in awarded):
+            self.note('sem:multi:depth3_prev_gains_value')
         if _flat_total(kw.get('prev', {}), depth) and any(x > 0 for x in awarded):
             self.note('sem:multi:prev_gains_value')
         if _flat_total(kw.get('max', {}), depth) and any(x > 0 for x in awarded):
@@ -678,13 +693,11 @@ class Hand:
             r = self.run(st, votes, {'n': n})
             acc = _nested_add(acc, r, depth)
             if q is not None:
-                if depth == 1:
-                    votes, n = _use(votes, r, n, q), n - sum(r.values())
-                else:
-                    if not isinstance(n, dict):
-                        raise Unspecified('unused votes by constituency with a single seat number')
-                    votes = {con: _use(cv, r.get(con, {}), n.get(con, 0), q) for con, cv in votes.items()}
-                    n = {con: s - sum(r.get(con, {}).values()) for con, s in n.items()}
+                votes, n = _use_nested(votes, r, n, q, depth), _seats_left(n, r, depth)
+            if depth >= 3 and _flat_total(r, depth) > 0:
+                self.note('sem:unused:depth3_value')
+                if st is not rounds[0]:
+                    self.note('sem:unused:depth3_later_stage_awards')
         return acc
 
     # party-list evaluation seats exactly as many list candidates as the party won
@@ -713,6 +726,13 @@ class Hand:
         if len(won) >= 2:
             self.note('sem:plist:2plus_parties')
         return out
+
+
+def _stage_leaf_kind(b):
+    """the kind of the first node below pass-through wrappers"""
+    while b.kind in ('vs', 'pre', 'post'):
+        b = b.kids['e']
+    return b.kind
 
 
 def _stage_leaf(node):
@@ -758,6 +778,23 @@ def _use(votes, won, n, q):
             raise vcore.VotingSystemError('more votes used than cast')
         out[c] = v - used
     return out
+
+
+def _use_nested(votes, won, n, q, depth):
+    """the votes left after the quota of this round's seats, constituency by constituency"""
+    if depth <= 1:
+        return _use(votes, won, n, q)
+    if not isinstance(n, dict):
+        raise Unspecified('unused votes by constituency with a single seat number')
+    return {con: _use_nested(cv, won.get(con, {}), n.get(con, 0 if depth == 2 else {}), q, depth - 1)
+            for con, cv in votes.items()}
+
+
+def _seats_left(n, won, depth):
+    """the seats left after this round's seats, constituency by constituency"""
+    if depth <= 1:
+        return n - sum(won.values())
+    return {con: _seats_left(s, won.get(con, {}), depth - 1) for con, s in n.items()}
 
 
 def _totals(values, depth):
@@ -1575,6 +1612,8 @@ def mk_case(tree, args, tags):
             tags.append('cond_depth2')
         if n['k'] == 'multi' and n['depth'] == 2:
             tags.append('multi_depth2')
+        if n['k'] in ('multi', 'unused', 'cond') and n['depth'] >= 3:
+            tags.append('%s_depth%d' % (n['k'], min(n['depth'], 4)))
         if n['k'] == 'tb' and n['main']['k'] == 'tb':
             tags.append('tb_nested')
         if n['k'] == 'bycon' and n.get('pre'):
@@ -1595,7 +1634,7 @@ def mk_case(tree, args, tags):
                 tags.append('seats:app_int_zero' if Fraction(a['int']) == 0 else
                             'seats:app_int_exceeds_candidates' if Fraction(a['int']) >= 9 else 'seats:app_int_usual')
             if isinstance(a, dict) and 'dict' in a:
-                vals = [Fraction(v) for _, v in a['dict']]
+                vals = list(_vote_numbers(a))
                 if 0 in vals:
                     tags.append('seats:app_dict_zero')
                 if any(v >= 9 for v in vals):
@@ -1607,7 +1646,7 @@ def mk_case(tree, args, tags):
         tags.append('seats:int_zero' if Fraction(nn) == 0 else
                     'seats:int_exceeds_candidates' if Fraction(nn) >= 9 else 'seats:int_usual')
     if isinstance(nn, dict):
-        vals = [Fraction(v) for _, v in nn['dict']]
+        vals = list(_vote_numbers(nn))
         if 0 in vals:
             tags.append('seats:dict_zero')
         if any(v >= 9 for v in vals):
@@ -1786,6 +1825,75 @@ def gen_by_party(rng):
                                          {'k': 'remapp', 'e': tree}], 'depth': 2}
         args['n'] = {'dict': [[c, str(rng.randint(1, 4))] for c in cons]}
         tags = [t for t in tags if t != 'seatspec:int'] + ['seatspec:dict']
+    return mk_case(tree, args, tags)
+
+
+def g_votes_levels(rng, levels, parties, prefix=CON0):
+    """votes nested by `levels` constituency levels (region -> district -> ... -> party)"""
+    if levels == 0:
+        return g_big_votes(rng, [p for p in parties if rng.random() < 0.9] or parties[:2])
+    keys = [prefix + i for i in range(rng.randint(1, 3 if levels == 1 else 2))]
+    return {'dict': [[k, g_votes_levels(rng, levels - 1, parties, prefix=(k - CON0 + 1) * 10 + CON0 + 100)] for k in keys]}
+
+
+def _like(v, levels, f):
+    """a value of the same constituency shape: f() at the party level"""
+    if levels == 0:
+        return f(v)
+    return {'dict': [[k, _like(x, levels - 1, f)] for k, x in v['dict']]}
+
+
+def gen_deep(rng):
+    """results nested by TWO (depth 3) or THREE (depth 4) constituency levels: ByConstituency over ByConstituency,
+    MultistageDistributor / UnusedVotesDistributor / Conditioned with depth >= 3, PreApportioned and FixedSeatCount
+    over those, previous gains nested to the same depth"""
+    parties = rng.sample(range(CANDS), rng.randint(2, 4))
+    levels = 3 if rng.random() < 0.2 else 2          # constituency levels; depth = levels + 1
+    depth = levels + 1
+    votes = g_votes_levels(rng, levels, parties)
+    ha = lambda: leaf('ha', divisor=rng.choice(DIVS))     # noqa
+
+    def over(inner, lv, first_app=None):
+        for i in range(lv):
+            inner = {'k': 'bycon', 'e': inner, 'app': first_app if i == 0 else None}
+        return inner
+    kind = rng.choice(['bycon', 'multi', 'multi', 'multi', 'unused', 'unused', 'cond', 'preapp', 'fixed'])
+    tags = ['deep:levels%d' % levels, 'deep:' + kind]
+    seat_kind = rng.choice(['int', 'table'])
+    table = _like(votes, levels, lambda _v: str(rng.randint(2, 6)))
+    if kind == 'unused':
+        rounds = [over(g_quota_leaf(rng, 'qd', True), levels) for _ in range(rng.randint(1, 2))] + [over(ha(), levels)]
+        tree = {'k': 'unused', 'rounds': rounds, 'depth': depth,
+                'quotas': [_stage_leaf(r)['quota'] if rng.random() < 0.7 else 'droop' for r in rounds[:-1]]}
+        seat_kind = 'table'          # the quota arithmetic of the rounds needs the seats of every constituency
+    else:
+        k_st = rng.randint(2, 3)
+        first = rng.choice([None, {'int': '1'}])       # stage 1 with its own innermost apportioner, as in MMP systems
+        rounds = [over(rng.choice([ha(), g_quota_leaf(rng, 'qd', True), g_quota_leaf(rng, 'lr', True)]), levels,
+                       first if i == 0 else None) for i in range(k_st)]
+        tree = {'k': 'multi', 'rounds': rounds, 'depth': depth}
+        if kind == 'bycon':
+            tree = over(ha(), levels)
+        elif kind == 'cond':
+            tree = {'k': 'cond', 'elim': g_thr(rng, 'rel_thr'), 'e': tree, 'depth': depth}
+        elif kind == 'preapp':
+            tree = {'k': 'preapp', 'e': tree, 'app': {'dict': table['dict']} if rng.random() < 0.6 else {'int': str(rng.randint(2, 5))}}
+            seat_kind = 'app'
+        elif kind == 'fixed':
+            tree = {'k': 'fixed', 'e': tree, 'n': str(rng.randint(2, 5))}
+            seat_kind = 'fixed'
+    args = {'votes': votes}
+    if seat_kind == 'int':
+        args['n'] = str(rng.randint(2, 6))
+        tags.append('seatspec:int')
+    elif seat_kind == 'table':
+        args['n'] = table
+        tags.append('seatspec:dict')
+    else:
+        tags.append('seatspec:none' if seat_kind == 'app' else 'seatspec:fixed')
+    if rng.random() < 0.6:
+        args['prev'] = _like(votes, levels, lambda v: g_gains(rng, parties, 2, 0.5))
+        tags.append('deep:prev_gains')
     return mk_case(tree, args, tags)
 
 
@@ -2009,6 +2117,8 @@ def _generate(rng, tier):
         yield gen_ties(rng)
     for _ in range(50 if tier == 'quick' else 1200):
         yield gen_votes_per_stage(rng)
+    for _ in range(200 if tier == 'quick' else 4000):
+        yield gen_deep(rng)
     for i in range(N):
         d = 1 + (i % 4)
         r = rng.random()
